@@ -58,8 +58,8 @@ Section Inv.
     - destruct (step s l) as [s1|] eqn:E; try discriminate. eapply IH; [|eauto]. eapply step_P; eauto.
   Qed.
 
-  Lemma reach_P : (forall fx, P (init_of fx)) -> forall s, reachable s -> P s.
-  Proof. intros Hi s [fx [tr H]]. eapply run_P; eauto. Qed.
+  Lemma reach_P : P init -> forall s, reachable s -> P s.
+  Proof. intros Hi s [tr H]. eapply run_P; eauto. Qed.
 End Inv.
 
 (* ------------------------------------------------------------------ list-set and assoc lemmas *)
@@ -169,7 +169,7 @@ Proof.
   - apply RegInv_exec.
   - apply RegInv_call.
   - apply RegInv_em.
-  - intros fx. split; simpl; auto.
+  - split; simpl; auto.
 Qed.
 
 (* cb_ok, unfolded: at every callback in the log, the last registration event of (h,w) before it is an add *)
@@ -269,7 +269,7 @@ Proof.
   - apply FifoInv_exec.
   - intros s0 n c H _. unfold FifoInv. cbn. apply FifoP_other; [reflexivity | reflexivity | exact H].
   - apply FifoInv_em.
-  - intros fx w. reflexivity.
+  - intros w. reflexivity.
 Qed.
 
 Lemma fifo_projections s w :
